@@ -199,6 +199,10 @@ def endings(code, status):
              ('executed', 'HARD_ERROR', True, code)),
             ('hard error in [cleanup]', conf + act + '[assert]\nexit-code == %d\n[cleanup]\n$ exit 1\n' % code, {}, [],
              ('executed', 'HARD_ERROR', True, code)),
+            # INTERNAL_ERROR with real instructions: the recorded C08/C18 finding (symbol defined after a failing assertion, used in cleanup)
+            ('internal error in [cleanup] (KeyError of a symbol defined after a failing assertion)',
+             conf + act + '[assert]\nexit-code == %d\ndef string C02_X = a\n[cleanup]\n$ echo @[C02_X]@\n' % other, {}, [],
+             ('executed', 'INTERNAL_ERROR', True, code)),
             ('failing assertion then hard error in [cleanup]', conf + act + '[assert]\nexit-code == %d\n[cleanup]\n$ exit 1\n' % other,
              {}, [], ('executed', 'HARD_ERROR', True, code)),
         ]
